@@ -424,6 +424,10 @@ func c06Seq(c *fw.Ctx, i int) {
 			if n > 200000 {
 				n = 200000 - r.Intn(5)
 			}
+			if r.Chance(1, 6000) && mtu >= 1200 {
+				n = 1<<24 + r.Pick(-1, 0, 1, 4096) // a frame of 16 MiB: large, not implausible (uncompressed video), and not empty
+				c.Count("frames_of_16MiB", 1)
+			}
 			in := c06Input(r, pk, n)
 			trace = append(trace, fmt.Sprintf("Packetize(%dB,%d)", len(in), samples))
 			if hooked {
